@@ -225,3 +225,22 @@ Definition discover_sched (base : string) (t : tree) (excl user : list string)
            (analyse : string -> outcome) (threaded : bool) (sigma tau : list string) : collected :=
   let ds := source_dirs excl (all_markers user) base t in
   collect analyse threaded (reorder ds sigma) (reorder ds tau).
+
+(* ---- the decidable guards of the exactness theorems, computed ---------------------------- *)
+(* relative paths of all directories strictly below t *)
+Fixpoint all_rels (t : tree) : list (list string) :=
+  match t with
+  | Dir _ _ subs => flat_map (fun c => [tname c] :: map (cons (tname c)) (all_rels c)) subs
+  end.
+
+(* no excluded path is a character prefix of a directory's path without being a component prefix *)
+Definition alignedb (ecs : list (list string)) (bc : list string) (t : tree) : bool :=
+  forallb (fun rel =>
+             forallb (fun ec => implb (prefixb (render ec) (render (bc ++ rel)%list))
+                                      (list_prefixb ec (bc ++ rel)%list)) ecs)
+          (all_rels t).
+
+(* the root is special-named / excluded, or no directory directly under it is marker-named *)
+Definition root_guardb (ecs : list (list string)) (user : list string) (bc : list string) (t : tree) : bool :=
+  is_special (basename (render bc)) || string_excluded ecs bc
+  || negb (has_marker_dir (all_markers user) (tsubs t)).
